@@ -52,8 +52,12 @@ func kvSysFromJob(j Job) Sys {
 	kind := j.s("c", "rbt")
 	cmpN, vcmpN := j.s("cmp", "nat"), j.s("vcmp", "nat")
 	if j.p("rank", 0) == 1 {
+		fresh := func(i int) Val { return Val(i) }
+		if kind == "treeset" {
+			fresh = func(i int) Val { return 0 }
+		}
 		return &KVSys[Key, Val]{Kind: kind, Order: j.p("m", 3), CmpN: cmpN, N: j.p("n", 8), Rank: true,
-			Fresh: func(i int) Val { return Val(i) }, KCmp: keyCmp(cmpN), VCmp: func(a, b Val) int { return int(a - b) }, PropsL: kvProps}
+			Fresh: fresh, KCmp: keyCmp(cmpN), VCmp: func(a, b Val) int { return int(a - b) }, PropsL: kvProps}
 	}
 	u := j.p("u", 4)
 	if kind == "treebidimap" || kind == "hashbidimap" {
@@ -95,7 +99,7 @@ func kvTreeJobs(prop string, q bool, add func(kind, id string, w int, s map[stri
 		m, n int
 	}
 	trees := []tb{
-		{"rbt", 0, pick(12, 16)}, {"avl", 0, pick(13, 17)}, {"treemap", 0, pick(10, 13)},
+		{"rbt", 0, pick(12, 16)}, {"avl", 0, pick(13, 17)}, {"treemap", 0, pick(10, 13)}, {"treeset", 0, pick(10, 13)},
 		{"btree", 3, pick(14, 20)}, {"btree", 4, pick(13, 18)}, {"btree", 5, pick(21, 24)}, {"btree", 6, pick(24, 28)},
 	}
 	if !q {
@@ -104,7 +108,7 @@ func kvTreeJobs(prop string, q bool, add func(kind, id string, w int, s map[stri
 	for _, t := range trees {
 		for _, c := range []string{"nat", "rev", "coarse"} {
 			n := t.n
-			if c != "nat" && t.c != "treemap" {
+			if c != "nat" && t.c != "treemap" && t.c != "treeset" {
 				n = t.n - pick(2, 2) // the comparator variants explore the same shapes; slightly smaller bound
 			}
 			id := fmt.Sprintf("%s%s.%s.n%d", t.c, map[bool]string{true: fmt.Sprint(t.m), false: ""}[t.m > 0], c, n)
